@@ -439,14 +439,18 @@ def compare_render(vec, o, check_log=True):
 def crash_sig(o):
     """A stable signature for panics/crashes: the first stick frame of the stack."""
     txt = o.get("stack") or o.get("stderr") or ""
-    m = re.search(r"(github\.com/tyler-sommer/stick[^\s(]*)\(", txt)
-    fn = m.group(1) if m else "?"
+    fn = "?"
+    for ln in txt.splitlines():
+        ln = ln.strip()
+        if ln.startswith("github.com/tyler-sommer/stick") and "(" in ln:
+            fn = ln[:ln.rindex("(")].split("/")[-1]
+            break
     msg = (o.get("err") or "")
     if not msg:
         m2 = re.search(r"(panic: [^\n]*|fatal error: [^\n]*)", txt)
         msg = m2.group(1) if m2 else ""
     msg = re.sub(r"\[[^\]]*\]|0x[0-9a-f]+|\d+", "#", msg)[:80]
-    return "%s in %s: %s" % (o.get("st"), fn.split("/")[-1], msg)
+    return "%s in %s: %s" % (o.get("st"), fn, msg)
 
 
 def replay_vectors(run, vectors, nontrivial=None, sigfn=None, check_log=True, deadline_ms=2000):
